@@ -9,7 +9,7 @@ import itertools
 
 import z3
 
-from .core import CutSeq, NativeStub, RaiseSignal, SBool, SInt, Sym, Unsupported
+from .core import QCOUNT, CutSeq, NativeStub, RaiseSignal, SBool, SInt, Sym, Unsupported
 
 Id = z3.DeclareSort("Id")
 Tup = z3.DeclareSort("Tup")
@@ -30,7 +30,7 @@ tcontains = z3.Function("tcontains", Tup, J, z3.BoolSort())  # `x in tuple_value
 re_search = z3.Function("re_search", J, z3.StringSort(), z3.BoolSort())  # re.search(pattern, string) is not None
 isclose_f = z3.Function("isclose", z3.RealSort(), z3.RealSort(), z3.RealSort(), z3.RealSort(), z3.BoolSort())
 
-_q = itertools.count()
+_q = QCOUNT
 
 # scope for refute mode (finite expansion of quantifiers); None = prove mode (real quantifiers)
 SCOPE = {"ids": None, "idx": None}
